@@ -12,7 +12,7 @@ import (
 func init() {
 	components["path.split"] = func(r *rand.Rand, tier string) (map[string]interface{}, func() (interface{}, string)) {
 		d := pickS(r, []string{"/", "/", "."})
-		mode := pickS(r, []string{"split", "smarter"})
+		mode := pickS(r, []string{"split", "smarter", "scan"})
 		toks := []string{"a", "b", "name", d, d, "\\", "\\" + d, "[", "]", "=", "[name=x" + d + "y]", "a\\" + d + "b\\" + d + "c", "app\\" + d + "kubernetes\\" + d + "io", "x", ""}
 		var sb strings.Builder
 		for i := r.Intn(9); i > 0; i-- {
@@ -22,7 +22,7 @@ func init() {
 		args := map[string]interface{}{"path": p, "d": d, "mode": mode}
 		return args, func() (interface{}, string) {
 			var out []string
-			if mode == "split" {
+			if mode == "split" || mode == "scan" {
 				out = utils.PathSplitter(p, d)
 			} else {
 				out = utils.SmarterPathSplitter(p, d)
